@@ -56,6 +56,43 @@ def laxIsoRel (m : Res LF) (impl : Sx) : Outcome :=
     | .ok a, some b => { model := ms, agree := laxIso a b, rel := "lax-iso(node renumbering)" }
     | _, _ => { model := ms, agree := false, rel := "lax-iso(node renumbering)", note := m.site }
 
+/-- the pending unifications as a multiset of UNORDERED pairs (the order of the pairs and of the two
+    ends of a pair cannot influence the quotient) -/
+def pairsNorm (f : LF) : List (Nat × Nat) :=
+  (f.hypergraph.quotient.1.zip f.hypergraph.quotient.2).map (fun p => (min p.1 p.2, max p.1 p.2))
+
+def samePairsMultiset (a b : LF) : Bool :=
+  let pa := pairsNorm a; let pb := pairsNorm b
+  a.hypergraph.quotient.1.length == a.hypergraph.quotient.2.length &&
+  b.hypergraph.quotient.1.length == b.hypergraph.quotient.2.length &&
+  pa.length == pb.length && pa.all (fun x => pa.count x == pb.count x)
+
+/-- lax-diagram-valued result of an operation whose property speaks about the STRICT diagram the
+    result denotes (C10 composition, C12/C13 functor images, C14 optic images, C19 forgetting) and
+    leaves the lax data themselves open.  Tiers: exact; equal up to a node renumbering (`laxIso`); same
+    nodes, hyperedges and interfaces with the pending unifications equal as a multiset of unordered
+    pairs; both strictify (the quotient succeeds on both) to isomorphic strict diagrams, the
+    isomorphism being certified (`IsoCert.certOk`). -/
+def laxDenoteRel (B : Backend) (m : Res LF) (impl : Sx) : Outcome :=
+  let o := laxIsoRel m impl
+  if o.agree then o else
+  match m, (unOk impl).bind (dec (α := LF)) with
+  | .ok a, some b =>
+    if a.sources == b.sources && a.targets == b.targets && a.hypergraph.nodes == b.hypergraph.nodes &&
+       a.hypergraph.edges == b.hypergraph.edges && a.hypergraph.adjacency == b.hypergraph.adjacency &&
+       samePairsMultiset a b then
+      { o with agree := true, rel := "same-pending-unifications(as a multiset of unordered pairs)" }
+    else if !b.wf then { o with note := "implementation result is not well-formed" }
+    else match LOHG.toStrict B a, LOHG.toStrict B b with
+      | .ok sa, .ok sb =>
+        if !sb.wf then { o with rel := "strict-iso", note := "strictified implementation result is not well-formed" }
+        else match IsoCert.check sa.toPlain sb.toPlain with
+          | .iso π ρ => { o with agree := IsoCert.certOk sa.toPlain sb.toPlain π ρ, rel := "strict-iso(after quotient)" }
+          | .notIso => { o with rel := "strict-iso(after quotient)" }
+          | .inconclusive => { o with rel := "strict-iso(after quotient)", decisive := false, note := "iso search inconclusive" }
+      | _, _ => o
+  | _, _ => o
+
 /-- one builder step on a lax open hypergraph: new state and the call's output -/
 def editStep (B : Backend) (f : LF) (op : Sx) : Option (Res (LF × Sx)) :=
   let h := f.hypergraph
@@ -303,10 +340,10 @@ def laxCat (B : Backend) (op : String) (args : List Sx) (impl : Sx) : Option Out
     pure (exact (Res.ok (LHG.coproductAssign g h)) impl)
   | "lax.compose", [f, g] => do
     let f : LF ← dec f; let g : LF ← dec g
-    pure (exact (LOHG.compose f g) impl)
+    pure (laxDenoteRel B (LOHG.compose f g) impl)
   | "lax.lax_compose", [f, g] => do
     let f : LF ← dec f; let g : LF ← dec g
-    pure (exact (LOHG.laxCompose f g) impl)
+    pure (laxDenoteRel B (LOHG.laxCompose f g) impl)
   | "lax.twist", [a, b] => do
     let a : L ← dec a; let b : L ← dec b
     pure (exact (LOHG.twist a b : Res LF) impl)
@@ -378,13 +415,25 @@ def functorG (B : Backend) (op : String) (args : List Sx) (impl : Sx) : Option O
     pure (isoRel (SFunctor.mapArrow B (LFunctor.toDyn B (famFunctor ov pv)) f) impl)
   | "lax.functor.map_arrow", [ov, pv, f] => do
     let ov : Nat ← dec ov; let pv : Nat ← dec pv; let f : LF ← dec f
-    pure (laxIsoRel (LFunctor.mapArrowViaStrict B (famFunctor ov pv) f) impl)
+    pure (laxDenoteRel B (LFunctor.mapArrowViaStrict B (famFunctor ov pv) f) impl)
   | "lax.functor.try_map_arrow", [ov, pv, f] => do
     let ov : Nat ← dec ov; let pv : Nat ← dec pv; let f : LF ← dec f
-    pure (exact (LFunctor.tryMapArrow (famFunctor ov pv) f) impl)
+    pure (laxDenoteRel B (LFunctor.tryMapArrow (famFunctor ov pv) f) impl)
   | "lax.functor.map_arrow_witness", [ov, pv, f] => do
     let ov : Nat ← dec ov; let pv : Nat ← dec pv; let f : LF ← dec f
-    pure (exact (LFunctor.mapArrowWitness (famFunctor ov pv) f) impl)
+    -- the witness indexes the nodes of the returned diagram, so no renumbering is allowed; only
+    -- the order of the pending unifications is left open
+    let m := LFunctor.mapArrowWitness (famFunctor ov pv) f
+    let o := exact m impl
+    if o.agree then pure o else
+    match m, (unOk impl).bind (dec (α := LF × IC FinFun)) with
+    | .ok (a, wa), some (b, wb) =>
+      if a.sources == b.sources && a.targets == b.targets && a.hypergraph.nodes == b.hypergraph.nodes &&
+         a.hypergraph.edges == b.hypergraph.edges && a.hypergraph.adjacency == b.hypergraph.adjacency &&
+         samePairsMultiset a b && enc wa == enc wb then
+        pure { o with agree := true, rel := "same-pending-unifications(as a multiset of unordered pairs)" }
+      else pure o
+    | _, _ => pure o
   | _, _ => none
 
 end Drv
